@@ -85,7 +85,7 @@ package service
 // evaluatePushPullCase classifies the request against what is stored.
 //@ func (*PushPullHandler).evaluatePushPullCase
 //@   mode wrap
-//@   props C13 C17 C16
+//@   props C13 C17 C16 C05
 //@   requires handlerWF(its) && its.datatypeDoc == nil && (its.gotPushPullPack.CheckPoint != nil ==> allocated(its.gotPushPullPack.CheckPoint))
 //@   ensures[error]          (result1 != nil) == (result0 == caseError)
 //@   ensures[nothing]        (result0 == caseMatchNothing) == (result1 == nil && its.datatypeDoc == nil)
@@ -124,8 +124,6 @@ package service
 // ---------------------------------------------------------------------------------------
 // the request path: validate, initialise, lock, reply exactly once (C12, C16, C18)
 // ---------------------------------------------------------------------------------------
-
-//@ immutable PushPullHandler.lock
 
 //@ func (*PushPullHandler).validatePushPullPack
 //@   mode wrap
@@ -200,7 +198,7 @@ package service
 // processSubscribeOrCreate: the refusal rows are taken from the property text (C13).
 //@ func (*PushPullHandler).processSubscribeOrCreate
 //@   mode wrap
-//@   props C13 C16
+//@   props C13 C16 C05
 //@   requires handlerWF(its) && its.resPushPullPack != nil && code != caseError
 //@   requires[sep] (its.datatypeDoc != nil ==> mongodb.docSep(its.datatypeDoc, its.gotPushPullPack.CheckPoint)) && (its.gotPushPullPack.CheckPoint != nil ==> allocated(its.gotPushPullPack.CheckPoint))
 //@   requires[log-inv] its.datatypeDoc != nil ? logInv(its) : G.stored == 0
@@ -246,3 +244,71 @@ package service
 //@   ensures[topic]   G.published > old(G.published) ==> G.lastTopic == strcat(its.collectionDoc.Name, "/", its.datatypeDoc.Key)
 //@   ensures[payload] G.published > old(G.published) ==> G.lastPayload.(*model.Notification).CUID == its.CUID && G.lastPayload.(*model.Notification).DUID == its.datatypeDoc.DUID && G.lastPayload.(*model.Notification).Sseq == its.currentCP.Sseq
 //@   modifies G:published, G:lastTopic, G:lastPayload, G:lastMarshaled
+
+// ---------------------------------------------------------------------------------------
+// RPC entry points (C16, C17, C19)
+// ---------------------------------------------------------------------------------------
+
+//@ immutable OrdaService.managers
+//@ pred svcWF(s *OrdaService) = s.managers != nil && s.managers.Mongo != nil && s.managers.Mongo.MongoCollections != nil
+
+// newPushPullHandler builds a handler for one pack. Trusted (constructor): its gotOption field is a
+// Go interior pointer to ppp.Option, which the engine's heap model does not represent; the contract
+// states the value it reads.
+//@ func newPushPullHandler
+//@   trusted constructor; stores an interior pointer (&ppp.Option) in a field
+//@   mode wrap
+//@   fresh
+//@   requires ppp != nil && clientDoc != nil && collectionDoc != nil && ctx != nil && clients != nil && clients.Mongo != nil && clients.Mongo.MongoCollections != nil
+//@   ensures handlerWF(result) && result.gotPushPullPack == ppp && result.clientDoc == clientDoc && result.collectionDoc == collectionDoc && result.managers == clients && result.Key == ppp.Key && result.DUID == ppp.DUID && result.CUID == clientDoc.CUID
+//@   ensures deref(result.gotOption) == ppp.Option && result.isReadOnly == optBit(ppp.Option, 64) && result.datatypeDoc == nil && len(result.pushingOperations) == 0 && result.lock == nil && !result.locked
+//@   modifies nothing
+
+// Start: takes the lock object for (collection, key) and spawns process exactly once.
+//@ func (*PushPullHandler).Start
+//@   mode wrap
+//@   props C16 C12
+//@   requires handlerWF(its)
+//@   ensures[spawns-one-handler] spawned("service.(*PushPullHandler).process") == old(spawned("service.(*PushPullHandler).process")) + 1
+//@   ensures[has-lock-object] its.lock != nil && result != nil
+//@   modifies PushPullHandler.lock, G:spawned:service.(*PushPullHandler).process
+
+// ProcessClient registers or updates a client. A CUID that is already registered in ANOTHER
+// collection is refused and nothing is written for it (C17).
+//@ func (*OrdaService).ProcessClient
+//@   mode wrap
+//@   props C17 C16
+//@   requires svcWF(its) && req != nil
+//@   ensures[answer-or-error] (result0 != nil) == (result1 == nil)
+//@   ensures[refused-writes-nothing] result1 != nil && G.clientWrites != old(G.clientWrites) ==> false
+//@   modifies *
+
+// ProcessPushPull: a client that is not registered, or registered in another collection than the
+// one named in the request, is refused before any handler starts; otherwise one handler per pack
+// is started and one reply per started handler is collected (C16, C17).
+//@ func (*OrdaService).ProcessPushPull
+//@   mode wrap
+//@   props C16 C17 C12
+//@   requires svcWF(its) && in != nil && (forall p in in.PushPullPacks :: p != nil)
+//@   loop 0 invariant[handlers-so-far] spawned("service.(*PushPullHandler).process") == old(spawned("service.(*PushPullHandler).process")) + rangeindex + 1 && len(chanList) == rangeindex + 1 && rangeindex + 1 <= len(in.PushPullPacks)
+//@   loop 1 invariant[cases] 0 <= rangeindex + 1
+//@   loop 2 invariant[remaining] remainingChan >= 0
+//@   loop 2 decreases remainingChan
+//@   ensures[answer-or-error] (result0 != nil) == (result1 == nil)
+//@   ensures[refused-starts-no-handler] result1 != nil ==> spawned("service.(*PushPullHandler).process") == old(spawned("service.(*PushPullHandler).process"))
+//@   ensures[one-handler-per-pack] result1 == nil ==> spawned("service.(*PushPullHandler).process") == old(spawned("service.(*PushPullHandler).process")) + len(in.PushPullPacks)
+//@   modifies PushPullHandler.lock, G:spawned:service.(*PushPullHandler).process
+
+// PatchDocument (REST): rebuilds the stored document, patches it to the target JSON and pushes the
+// emitted operations through a push-pull handler as the volatile admin client. A document that
+// already has a log continues at the version it was rebuilt at (so that its operations are
+// numbered after the log), and a push the handler refuses is reported, not swallowed (C19).
+//@ func (*OrdaService).PatchDocument
+//@   mode wrap
+//@   props C19 C16
+//@   requires svcWF(its) && req != nil && G.stored < 4611686018427387904
+//@   ensures[answer-or-error] (result0 != nil) == (result1 == nil)
+//@   ensures[continues-at-rebuilt-version] result1 == nil && G.stored >= 1 && G.receiveCalls > old(G.receiveCalls) ==> G.cpSets == old(G.cpSets) + 1 && G.cpSetSseq == G.stored && G.cpSetCseq == 0
+//@   ensures[refused-push-is-reported] received() > old(received()) && lastReceived(model.PushPullPack) != nil && optBit(lastReceived(model.PushPullPack).Option, 32) ==> result1 != nil
+//@   ensures[lock-released] G.held == old(G.held)
+//@   modifies *
